@@ -62,11 +62,11 @@ def aliases(write):
         for k in sorted(found):
             e = old.get(k) or {"cls": k[0], "via": k[1], "path": k[2], "with": k[3], "label": k[4], "remark": "REVIEW: new, judge it and replace this remark"}
             out.append(e)
+        try:  # read the hand-kept block BEFORE the file is truncated
+            keep_roots = json.load(open(c19.ALIASES_FILE)).get("reviewed_result_roots", [])
+        except Exception:  # noqa
+            keep_roots = []
         with open(c19.ALIASES_FILE, "w") as f:
-            try:
-                keep_roots = json.load(open(c19.ALIASES_FILE)).get("reviewed_result_roots", [])
-            except Exception:  # noqa
-                keep_roots = []
             json.dump({"reviewed_result_roots": keep_roots, "note": "`reviewed_result_roots` (label prefixes of library-held objects that results of catalogued calls may reference) is kept by hand; reviewed sharing between constructed objects and library state / other instances / the caller's arguments on the unchanged tree; "
                                "regenerate with tools/c19_rebaseline.py --aliases --write; an entry whose remark starts with REVIEW suppresses nothing",
                        "reviewed": out}, f, indent=1)
